@@ -392,13 +392,21 @@ PROPS["C11"] = dict(mc=_dist_mc(), record=True, trace="Trace_C11", shards=12,
                "statement. Decimal backgrounds: numerators rounded, one unit of slack. The Python bindings' pvalue / score (incl. the cached distribution of a reverse-complemented matrix) are recorded too and validated by Trace_Py's py_pvalue rule (same bracket). "
                "Trusted: TLC, Json module.",
     rule="impl->spec: one event per (matrix, background); distinct_nontrivial = distinct (matrix, background).",
-    assumptions=["finite non-wildcard entries, wildcard column -inf with background frequency 0"])
+    assumptions=["finite non-wildcard entries; the wildcard in each of its roles: -inf with frequency 0 (most cases), -inf with a "
+                 "frequency of its own (known finding C11-wildcard-frequency-below-minimum), finite scores with frequency 0, "
+                 "finite scores and a frequency (then one more symbol of the word model, events written with K = 6)"])
 def _tfm_mc():
     return _dist_mc() + [
         dict(name="MC_Tfm_g10", module="MC_Tfm", invariants=["RangeOK"], coverage=False, workers=6,   # -coverage exhausts the heap on the deeply recursive operators
              constants=dict(GI=10, SeedFromRow0=False), quick=dict(MaxM=2, CellVals="{0, 1, 3, 6}"), thorough=dict(MaxM=3, CellVals="{0, 1, 3, 6}")),
         dict(name="MC_Tfm_g100", module="MC_Tfm", invariants=["RangeOK"], coverage=False, workers=6,
              constants=dict(GI=100, SeedFromRow0=False), quick=dict(MaxM=2, CellVals="{0, 2, 5}"), thorough=dict(MaxM=2, CellVals="{0, 1, 3, 6}")),
+        dict(name="MC_Tfm_wildcard_frequency", module="MC_Tfm", invariants=["RangeOK"], coverage=False, workers=6,
+             constants=dict(GI=10, SeedFromRow0=False, Bgs="<- WildBgs"), quick=dict(MaxM=2, CellVals="{0, 1, 3, 6}"), thorough=dict(MaxM=3, CellVals="{0, 3, 6}")),
+        dict(name="MC_Tfm_neg_bucket_as_coded", module="MC_Tfm", invariants=["RangeOK"], expect_violation="RangeOK", coverage=False,
+             constants=dict(GI=10, SeedFromRow0=False, Bgs="<- WildBgs", BucketAsCoded="<- AsCodedTrue", Mats="<- WildWitness", MaxM=3, CellVals="{0}")),
+        dict(name="MC_Tfm_wildcard_witness", module="MC_Tfm", invariants=["RangeOK"], coverage=False,
+             constants=dict(GI=10, SeedFromRow0=False, Bgs="<- WildBgs", Mats="<- WildWitness", MaxM=3, CellVals="{0}")),
         dict(name="MC_Tfm_neg_seed_row0", module="MC_Tfm", invariants=["RangeOK"], expect_violation="RangeOK", coverage=False,
              constants=dict(GI=10, SeedFromRow0=True, MaxM=2, CellVals="{0, 2, 5}")),
     ]
@@ -408,10 +416,12 @@ PROPS["C12"] = dict(mc=_tfm_mc(), record=True, trace="Trace_Tfm", shards=12,
     level_text="Every refinement step of TfmPvalue::approximate_pvalue on real grid matrices (M = 2..6, uniform / dyadic / "
                "decimal backgrounds; scores below the minimum, above the maximum, attainable, just above an attainable "
                "value) is validated by TLC against the exact tail (D-layer convolution, model-checked against enumeration): "
-               "0 <= pmin <= pmax <= 1, P(S >= s+(M+1)g) <= pmin, pmax <= P(S >= s-(M+2)g); the last step is the final p-value.",
+               "0 <= pmin <= pmax <= 1, P(S >= s+(M+1)g) <= pmin, pmax <= P(S >= s-(M+2)g); the last step is the final p-value. "
+               "One matrix in four has the wildcard in one of its other roles (a background frequency of its own, finite scores, or both).",
     level_note="I-layer: TfmPvalue::{recompute, distribution, lookup_pvalue} transcribed in exact integer arithmetic (Tfm.tla) "
                "and model-checked to satisfy the stated bounds for every small matrix / background / row permutation / score "
-               "at g = 1/10 and 1/100, with the originally coded seed of the running sum as negative control; the trace "
+               "at g = 1/10 and 1/100 - also for backgrounds that give the wildcard a frequency (suffix mass of the overflow bucket) - "
+               "with the originally coded seed of the running sum and the originally coded bucket as negative controls; the trace "
                "specification also reports (advisory) when the real look-up differs from the I-model at g = 1/10. The decisive "
                "oracle for the real code is the exact tail, as the property states it. Matrices with (K-1)^M beyond 4^6 and "
                "non-grid matrices are not decided. Trusted: TLC, Json module.",
@@ -448,7 +458,9 @@ PROPS["C13"] = dict(mc=_tfmscore_mc(), record=True, trace="Trace_Tfm", shards=14
                "thresholds for dyadic backgrounds; for decimal backgrounds the f64 sums decide exact ties (sum == p) "
                "differently from exact arithmetic - both outcomes satisfy the property - so the comparison is not part of the "
                "check. Recorded queries come from fresh and from reused TfmPvalue objects, grids 1/4 and 1/16, constant rows, "
-               "attainable tails and midpoints. Same limits as C12. Trusted: TLC, Json module.",
+               "attainable tails and midpoints, p of the order of 1e-17 (saturating distribution Dist!ConvDistSat), and the wildcard in its "
+               "four roles (wild = none / frequency_only / finite_scores_zero_frequency / finite_scores_and_frequency; the last one is the "
+               "known finding C13-wildcard-column-not-a-symbol). Same limits as C12. Trusted: TLC, Json module.",
     rule="impl->spec: one event per (matrix, background, p) with all iterations; distinct_nontrivial = distinct queries.",
     assumptions=["at most 6 refinement steps are recorded per query"])
 
